@@ -1327,6 +1327,39 @@ def _names_bound_in_block(lines: List[str]) -> Set[str]:
     return names
 
 
+def _local_names_of_function(lines: List[str]) -> Set[str]:
+    """Names a function body (re)binds by assignment and does not declare ``global``."""
+
+    import textwrap
+
+    code = [ln for ln in lines if ln.strip() and not ln.lstrip().startswith("#")]
+    try:
+        tree = ast.parse(textwrap.dedent("\n".join(code)))
+    except (SyntaxError, ValueError, RecursionError):
+        return set()
+    assigned: Set[str] = set()
+    declared_global: Set[str] = set()
+
+    def add_target(target: ast.AST) -> None:
+        if isinstance(target, ast.Name):
+            assigned.add(target.id)
+        elif isinstance(target, (ast.Tuple, ast.List)):
+            for elt in target.elts:
+                add_target(elt)
+
+    for node in ast.walk(tree):
+        if isinstance(node, ast.Assign):
+            for target in node.targets:
+                add_target(target)
+        elif isinstance(node, (ast.AugAssign, ast.AnnAssign)):
+            add_target(node.target)
+        elif isinstance(node, ast.For):
+            add_target(node.target)
+        elif isinstance(node, (ast.Global, ast.Nonlocal)):
+            declared_global.update(node.names)
+    return assigned - declared_global
+
+
 _PURE_BUILTINS = {"len", "abs", "min", "max", "int", "float", "bool"}
 
 # result types of the device getters whose name identifies them
@@ -1894,6 +1927,13 @@ def _parse_function(
     child_ctx["functions"] = functions_map
     if "tmp_counter" in ctx:
         child_ctx["tmp_counter"] = ctx["tmp_counter"]
+
+    # Python scoping: a name the body assigns without declaring it ``global`` is a local
+    # of the helper, even when the sketch has a variable of the same name.
+    for local_name in _local_names_of_function(block) - {arg.arg for arg in all_args}:
+        child_ctx["var_declared"].discard(local_name)
+        child_ctx["_base_declared"].discard(local_name)
+        child_ctx["var_types"].pop(local_name, None)
 
     # A helper can run at any time: nothing the sketch assigns is a constant inside it.
     child_ctx["list_info"] = {k: dict(v) for k, v in ctx.get("list_info", {}).items()}
